@@ -54,7 +54,14 @@ impl PixelDataReader for RleLosslessAdapter {
         let frame_size = stride * samples_per_pixel;
         // extend `dst` to make room for decoded pixel data
         let base_offset = dst.len();
-        dst.resize(base_offset + frame_size * nr_frames, 0);
+        let total_fragment_len = (0..nr_frames)
+            .map(|i| src.fragment(i).map(|f| f.len()).unwrap_or(0))
+            .fold(0_usize, usize::saturating_add);
+        extend_zeroed(
+            dst,
+            frame_size.checked_mul(nr_frames),
+            total_fragment_len,
+        )?;
 
         // RLE encoded data is ordered like this (for 16-bit, 3 sample):
         //  Segment: 0     | 1     | 2     | 3     | 4     | 5
@@ -72,23 +79,15 @@ impl PixelDataReader for RleLosslessAdapter {
             let fragment = &src
                 .fragment(i)
                 .whatever_context("No pixel data found for frame")?;
-            let mut offsets = read_rle_header(fragment);
-            offsets.push(fragment.len() as u32);
+            let offsets = read_rle_header(fragment)?;
 
             for sample_number in 0..samples_per_pixel {
                 for byte_offset in (0..bytes_per_sample).rev() {
                     // ii is 1, 0, 3, 2, 5, 4 for the example above
                     // This is where the segment order correction occurs
                     let ii = sample_number * bytes_per_sample + byte_offset;
-                    let segment = &fragment[offsets[ii] as usize..offsets[ii + 1] as usize];
-                    let buff = io::Cursor::new(segment);
-                    let (_, decoder) = PackBitsReader::new(buff, segment.len())
-                        .whatever_context("Failed to read RLE segments")?;
-                    let mut decoded_segment = Vec::with_capacity(rows as usize * cols as usize);
-                    decoder
-                        .take(rows as u64 * cols as u64)
-                        .read_to_end(&mut decoded_segment)
-                        .unwrap();
+                    let decoded_segment =
+                        decode_segment(fragment, &offsets, ii, rows as usize * cols as usize)?;
 
                     // Interleave pixels as described in the example above.
                     // in 16-bit, this is:
@@ -164,7 +163,8 @@ impl PixelDataReader for RleLosslessAdapter {
         let frame_size = stride * samples_per_pixel;
         // extend `dst` to make room for decoded pixel data
         let base_offset = dst.len();
-        dst.resize(base_offset + frame_size, 0);
+        let fragment_len = src.fragment(frame as usize).map(|f| f.len()).unwrap_or(0);
+        extend_zeroed(dst, Some(frame_size), fragment_len)?;
 
         // RLE encoded data is ordered like this (for 16-bit, 3 sample):
         //  Segment: 0     | 1     | 2     | 3     | 4     | 5
@@ -181,24 +181,15 @@ impl PixelDataReader for RleLosslessAdapter {
         let fragment = &src
             .fragment(frame as usize)
             .whatever_context("No pixel data found for frame")?;
-        let mut offsets = read_rle_header(fragment);
-        offsets.push(fragment.len() as u32);
+        let offsets = read_rle_header(fragment)?;
 
         for sample_number in 0..samples_per_pixel {
             for byte_offset in (0..bytes_per_sample).rev() {
                 // ii is 1, 0, 3, 2, 5, 4 for the example above
                 // This is where the segment order correction occurs
                 let ii = sample_number * bytes_per_sample + byte_offset;
-                let segment = &fragment[offsets[ii] as usize..offsets[ii + 1] as usize];
-                let buff = io::Cursor::new(segment);
-                let (_, decoder) = PackBitsReader::new(buff, segment.len())
-                    .map_err(|e| Box::new(e) as Box<_>)
-                    .whatever_context("Failed to read RLE segments")?;
-                let mut decoded_segment = Vec::with_capacity(rows as usize * cols as usize);
-                decoder
-                    .take(rows as u64 * cols as u64)
-                    .read_to_end(&mut decoded_segment)
-                    .unwrap();
+                let decoded_segment =
+                    decode_segment(fragment, &offsets, ii, rows as usize * cols as usize)?;
 
                 // Interleave pixels as described in the example above.
                 // segments come most significant byte first,
@@ -221,12 +212,81 @@ impl PixelDataReader for RleLosslessAdapter {
 
 // TODO(#125) implement `encode`
 
-// Read the RLE header and return the offsets
-fn read_rle_header(fragment: &[u8]) -> Vec<u32> {
-    let nr_segments = LittleEndian::read_u32(&fragment[0..4]);
-    let mut offsets = vec![0; nr_segments as usize];
-    LittleEndian::read_u32_into(&fragment[4..4 * (nr_segments + 1) as usize], &mut offsets);
-    offsets
+/// Read the RLE header and return the offsets of the segments,
+/// followed by the end of the fragment.
+fn read_rle_header(fragment: &[u8]) -> DecodeResult<Vec<u32>> {
+    // the header is made of 16 unsigned 32-bit integers:
+    // the number of segments (at most 15) and their offsets
+    if fragment.len() < 64 {
+        whatever!("RLE fragment is too short to hold an RLE header");
+    }
+    let nr_segments = LittleEndian::read_u32(&fragment[0..4]) as usize;
+    if nr_segments > 15 {
+        whatever!("Invalid number of RLE segments: {}", nr_segments);
+    }
+    let mut offsets = vec![0; nr_segments];
+    LittleEndian::read_u32_into(&fragment[4..4 * (nr_segments + 1)], &mut offsets);
+    offsets.push(fragment.len() as u32);
+    Ok(offsets)
+}
+
+/// Decode the RLE segment of the given index,
+/// which must provide at least `num_pixels` bytes.
+fn decode_segment(
+    fragment: &[u8],
+    offsets: &[u32],
+    index: usize,
+    num_pixels: usize,
+) -> DecodeResult<Vec<u8>> {
+    let (Some(&start), Some(&end)) = (offsets.get(index), offsets.get(index + 1)) else {
+        whatever!("Missing RLE segment #{}", index);
+    };
+    let Some(segment) = fragment.get(start as usize..end as usize) else {
+        whatever!("RLE segment #{} is out of the bounds of the fragment", index);
+    };
+    let buff = io::Cursor::new(segment);
+    let (_, decoder) = PackBitsReader::new(buff, segment.len())
+        .map_err(|e| Box::new(e) as Box<_>)
+        .whatever_context("Failed to read RLE segments")?;
+    let mut decoded_segment = Vec::new();
+    decoder
+        .take(num_pixels as u64)
+        .read_to_end(&mut decoded_segment)
+        .map_err(|e| Box::new(e) as Box<_>)
+        .whatever_context("Failed to read RLE segments")?;
+    if decoded_segment.len() < num_pixels {
+        whatever!(
+            "RLE segment #{} has {} bytes, expected {}",
+            index,
+            decoded_segment.len(),
+            num_pixels
+        );
+    }
+    Ok(decoded_segment)
+}
+
+/// Extend `dst` with `len` zeroed bytes for the decoded pixel data,
+/// given the total length of the encoded data.
+/// Fails if the length cannot be represented,
+/// cannot possibly be produced by the encoded data
+/// (a PackBits run expands 2 bytes into at most 128 bytes),
+/// or cannot be allocated.
+fn extend_zeroed(dst: &mut Vec<u8>, len: Option<usize>, encoded_len: usize) -> DecodeResult<()> {
+    let Some(len) = len else {
+        whatever!("Decoded pixel data size is too large");
+    };
+    if len > encoded_len.saturating_mul(64) {
+        whatever!(
+            "Decoded pixel data size {} is inconsistent with {} bytes of encoded data",
+            len,
+            encoded_len
+        );
+    }
+    if dst.try_reserve(len).is_err() {
+        whatever!("Could not allocate {} bytes for the decoded pixel data", len);
+    }
+    dst.resize(dst.len() + len, 0);
+    Ok(())
 }
 
 /// PackBits Reader from the image-tiff crate
